@@ -278,7 +278,7 @@ func init() {
 					rc.Notes = append(rc.Notes, "potential race: "+r)
 				}
 			}
-			dir := filepath.Join(verifDir, "replays", "C14", "race")
+			dir := filepath.Join(outDir, "replays", "C14", "race")
 			os.MkdirAll(dir, 0o755)
 			ov := fmt.Sprintf(`{"Replace": {"%s": "%s"}}`, filepath.Join(repoDir, "zz_verif_race_test.go"), filepath.Join(verifDir, "race", "race_test.go"))
 			os.WriteFile(filepath.Join(dir, "overlay.json"), []byte(ov), 0o644)
